@@ -36,6 +36,8 @@ SENSITIVITY = [
     ("Formatter.tla", "MC_Formatter_childNeverExits.cfg", "Deadlock reached"),   # boundary of the claim
     ("WriteOut.tla", "MC_WriteOut_sepAlways.cfg", "Invariant OnceInOrder is violated"),
     ("WriteOut.tla", "MC_WriteOut_preludeAgainOnFallback.cfg", "is violated"),
+    # the order Trace_Formatter checks is the order of the machine, and the mutant breaks it
+    ("Formatter.tla", "MC_Formatter_waitBeforeDrain_order.cfg", "Action property StepsFollowNextStep is violated"),
 ]
 
 R4 = ["read"] * 4   # READALL on three chunks: three reads and the EOF
@@ -153,13 +155,46 @@ def _limits():
     resource.setrlimit(resource.RLIMIT_CORE, (0, 0))   # fakefmt kills itself with SIGSEGV on purpose
 
 
-def fmtdrive(groups, name, timeout_ms, threads=THREADS, wall=1500):
+class Tracer:
+    """Collects the hook logs (`fmt`, `write_seg`, framed by `reset` / `run_end`) of the driver runs."""
+    KEEP = ('{"ev":"reset"', '{"ev":"fmt"', '{"ev":"write_seg"', '{"ev":"run_end"')
+
+    def __init__(self, name="trace"):
+        self.path = os.path.join(C.workdir("c15-" + name), "trace.ndjson")
+        self.pred, self.src, self.lines = {}, {}, 0
+
+    def meta(self, g, v, j):
+        args = g["args"]
+        end = args.index("--") if "--" in args else len(args)
+        raws = [args[i + 1] for i in range(end - 1) if args[i] == "--raw-line"]
+        return {"formatter": v["formatter"], "header": bool(g["header"]),
+                "raw_lens": [len(r.encode()) for r in raws], "src": self.src.get(j["id"], -1),
+                "pred": self.pred.get(j["id"]) or ""}
+
+    def collect(self, d):
+        with open(self.path, "a") as o:
+            for w in sorted(os.listdir(d)):
+                p = os.path.join(d, w, "trace.ndjson")
+                if not os.path.isfile(p):
+                    continue
+                with open(p, errors="replace") as f:
+                    for line in f:
+                        if line.startswith(self.KEEP):
+                            o.write(line)
+                            self.lines += 1
+                os.remove(p)
+
+
+def fmtdrive(groups, name, timeout_ms, threads=THREADS, wall=1500, tracer=None):
     """Run groups through `bvdrive fmtdrive`; returns ({job id: record}, {gid: group record})."""
     d = C.workdir("c15-" + name)
     jf = os.path.join(d, "jobs.json")
+    if tracer:
+        groups = [dict(g, variants=[dict(v, jobs=[dict(j, meta=tracer.meta(g, v, j)) for j in v["jobs"]])
+                                    for v in g["variants"]]) for g in groups]
     with open(jf, "w") as f:
         json.dump({"threads": threads, "timeout_ms": int(timeout_ms), "fakefmt": FAKEFMT, "scratch": d,
-                   "groups": groups}, f)
+                   "trace": bool(tracer), "groups": groups}, f)
     env = dict(os.environ)
     env.pop("BINDGEN_VERIF_LOG", None)
     env.pop("RUSTFMT", None)
@@ -168,6 +203,8 @@ def fmtdrive(groups, name, timeout_ms, threads=THREADS, wall=1500):
                            text=True, timeout=wall, env=env, cwd=C.TESTS_CWD, preexec_fn=_limits)
     except subprocess.TimeoutExpired:
         raise C.ToolError("bvdrive fmtdrive timed out (%s)" % name)
+    if tracer:
+        tracer.collect(d)
     jobs, grp = {}, {}
     for line in p.stdout.splitlines():
         try:
@@ -298,7 +335,7 @@ def slices(items, n):
     return [items[i::n] for i in range(n)]
 
 
-def scripted(res, tier, pred, tally):
+def scripted(res, tier, pred, tally, tracer=None):
     d = C.workdir("c15-inputs")
     hdr = make_headers(d)
     bad = spawn_failures(d)
@@ -395,7 +432,11 @@ def scripted(res, tier, pred, tally):
     classes = {}
     for sz in ("small", "big"):
         gs = [g for g in groups if g["gid"].startswith(sz + "#")]
-        jobs, grp = fmtdrive(gs, "scripted-" + sz, size[sz]["timeout"])
+        if tracer:
+            for jid, (cls, _k, _d) in meta.items():
+                if jid.startswith(sz + "|"):
+                    tracer.pred[jid], tracer.src[jid] = cls, size[sz]["src"]
+        jobs, grp = fmtdrive(gs, "scripted-" + sz, size[sz]["timeout"], tracer=tracer)
         for g in gs:
             if grp.get(g["gid"], {}).get("baseline") != "ok":
                 raise C.ToolError("reference generation failed for %s: %s" % (g["gid"], grp.get(g["gid"])))
@@ -420,7 +461,7 @@ def scripted(res, tier, pred, tally):
     return hdr, size, cfg_present, cfg_absent
 
 
-def writeout(res, hdr, size, tally):
+def writeout(res, hdr, size, tally, tracer=None):
     r = tlc_run("WriteOut.tla", "Gen_WriteOut.cfg", "gen-writeout", workers=2, timeout=300)
     if not C.tlc_ok(r):
         raise C.ToolError("Gen_WriteOut failed: %s" % r["out"][-1200:])
@@ -442,7 +483,10 @@ def writeout(res, hdr, size, tally):
         jid = "wo|%s|%s" % (key, x["outcome"])
         g["variants"][0]["jobs"].append({"id": jid, "script": text, "expect_body": exp})
         meta[jid] = (cls, x)
-    jobs, grp = fmtdrive(groups, "writeout", size["small"]["timeout"])
+    if tracer:
+        for jid, (cls, _x) in meta.items():
+            tracer.pred[jid], tracer.src[jid] = cls, size["small"]["src"]
+    jobs, grp = fmtdrive(groups, "writeout", size["small"]["timeout"], tracer=tracer)
     for jid, (cls, x) in sorted(meta.items()):
         rec = jobs[jid]
         if rec.get("result") == "gen_fail":
@@ -470,7 +514,7 @@ def corpus_args(c):
     return args[:i] + ["--raw-line", RAW[0], "--raw-line", RAW[1]] + args[i:]
 
 
-def real_formatters(res, tier, hdr, size, cfg_present, cfg_absent, tally):
+def real_formatters(res, tier, hdr, size, cfg_present, cfg_absent, tally, tracer=None):
     have_rustfmt = rustfmt_works()
     if not have_rustfmt:
         res.notes.append("rustfmt is not runnable offline: only none and prettyplease compared")
@@ -491,7 +535,10 @@ def real_formatters(res, tier, hdr, size, cfg_present, cfg_absent, tally):
             g["variants"].append(variant("rustfmt-cfgabsent", [{"id": "gen-%s|rustfmt-cfgabsent" % sz}],
                                          rustfmt=RUSTFMT, config=cfg_absent))
         groups.append(g)
-    jobs, grp = fmtdrive(groups, "real", 600000)
+    if tracer:
+        for sz in ("small", "big"):
+            tracer.pred["gen-%s|rustfmt-cfgabsent" % sz] = "Fallback"
+    jobs, grp = fmtdrive(groups, "real", 600000, tracer=tracer)
     ok_cases = strict = 0
     levels = {}
     for g in groups:
@@ -565,6 +612,109 @@ def selftest(res, hdr, size, have_rustfmt):
 
 
 # ---------------------------------------------------------------------------------------------
+# T: hook logs of every run validated against Formatter / WriteOut rules by TLC
+# ---------------------------------------------------------------------------------------------
+
+def run_trace(path, name):
+    r = C.tlc(os.path.join(BACK, "Trace_Formatter.tla"), cfg="fmt/Trace_Formatter.cfg", env={"TRACE": path},
+              workers=1, dfs=True, timeout=1500, name="c15-tv-" + name)
+    if not C.tlc_ok(r):
+        rej = C.tlc_prints(r["out"], "REJECTED")
+        raise C.ToolError("trace validation did not complete (%s): %s" % (name, rej or r["out"][-1500:]))
+    out = {}
+    for tag in ("VIOL", "DRIFT", "COUNTS"):
+        v = C.tlc_prints(r["out"], tag)
+        if not v or (isinstance(v[-1], dict) and "raw" in v[-1]):
+            raise C.ToolError("trace validation printed no %s (%s)" % (tag, name))
+        out[tag] = v[-1]
+    return out, r
+
+
+def validate_trace(res, tracer, tally, chunk=60000):
+    """All collected runs, in chunks cut at `reset` lines (one TLC run per chunk)."""
+    if tracer.lines == 0:
+        raise C.ToolError("no hook events were logged (bindgen built without cfg(bindgen_verif)?)")
+    d = os.path.dirname(tracer.path)
+    parts, cur, n = [], None, 0
+    with open(tracer.path) as f:
+        for line in f:
+            if cur is None or (n >= chunk and line.startswith('{"ev":"reset"')):
+                if cur:
+                    cur.close()
+                parts.append(os.path.join(d, "part%d.ndjson" % len(parts)))
+                cur, n = open(parts[-1], "w"), 0
+            cur.write(line)
+            n += 1
+    if cur:
+        cur.close()
+    tot = {"runs": 0, "validated": 0, "incomplete": 0, "events": 0, "external": 0}
+    for i, p in enumerate(parts):
+        out, r = run_trace(p, "part%d" % i)
+        res.add(trace_states=r["distinct"])
+        for k in tot:
+            tot[k] += out["COUNTS"].get(k, 0)
+        for v in out["VIOL"]:
+            # `segments` / `triage`: exactly the property statement, seen from inside the implementation
+            res.violation("trace-%s:%s" % (v.get("kind"), v.get("case")), v)
+        for dr in out["DRIFT"]:
+            tally.drifts.setdefault("trace: " + str(dr.get("kind")), []).append(str(dr.get("case")))
+        os.remove(p)
+    res.add(trace_runs_validated=tot["validated"], trace_runs_with_child_protocol=tot["external"],
+            trace_runs_incomplete=tot["incomplete"], trace_events=tot["events"])
+    if tot["validated"] == 0 or tot["external"] == 0:
+        raise C.ToolError("vacuous trace validation: %s" % tot)
+    trace_sensitivity(res, tracer)
+    os.remove(tracer.path)
+    return tot["validated"]
+
+
+def trace_sensitivity(res, tracer):
+    """Corrupt recorded runs (drop an event, change a field, duplicate a segment): TLC must object."""
+    runs, cur = [], []
+    with open(tracer.path) as f:
+        for line in f:
+            if line.startswith('{"ev":"reset"') and cur:
+                runs.append(cur)
+                cur = []
+            cur.append(line)
+            if len(runs) > 4000:
+                break
+    def pick(pred):
+        for r in runs:
+            if pred("".join(r)) and r[-1].startswith('{"ev":"run_end"') and '"result":"ok"' in r[-1]:
+                return list(r)
+        raise C.ToolError("trace sensitivity: no suitable recorded run")
+    def rename(r, name):
+        m = json.loads(r[0])
+        m["case"] = name
+        return [json.dumps(m, separators=(",", ":")) + "\n"] + r[1:]
+    full = lambda t: '"step":"joined"' in t and '"kind":"header"' in t and '"kind":"raw"' in t
+    a = rename([l for l in pick(full) if '"step":"waited"' not in l], "drop-waited")
+    b = rename([l.replace('"body_tokens"', '"body_formatted"') for l in pick(lambda t: full(t) and "body_tokens" in t)],
+               "fallback-as-formatted")
+    c0 = pick(full)
+    hdr = [l for l in c0 if '"kind":"header"' in l][0]
+    c = rename(c0[:-2] + [hdr] + c0[-2:], "header-twice")
+    d0 = pick(full)
+    d = rename([l for l in d0 if '"kind":"sep"' not in l], "sep-dropped")
+    e = rename([l.replace('"a":1', '"a":0') if '"step":"joined"' in l else l
+                for l in pick(lambda t: full(t) and "body_tokens" in t and '"step":"joined","a":1' in t)],
+               "utf8-flag-flipped")
+    p = os.path.join(os.path.dirname(tracer.path), "corrupted.ndjson")
+    with open(p, "w") as f:
+        for r in (a, b, c, d, e):
+            f.writelines(r)
+    out, _ = run_trace(p, "sens")
+    got = {(v.get("kind"), v.get("case")) for v in out["VIOL"]} | {(v.get("kind"), v.get("case")) for v in out["DRIFT"]}
+    want = {("protocol-order", "drop-waited"), ("triage", "fallback-as-formatted"), ("segments", "header-twice"),
+            ("segments", "sep-dropped"), ("triage", "utf8-flag-flipped")}
+    if not want <= got:
+        raise C.ToolError("trace sensitivity: corruptions not detected: %s" % sorted(want - got))
+    res.add(trace_corruptions_detected=len(want))
+    os.remove(p)
+
+
+# ---------------------------------------------------------------------------------------------
 
 ASSUMPTIONS = [
     "a child that reports success (exit status 0 or 3, valid UTF-8) is trusted whatever it printed, also after "
@@ -599,17 +749,22 @@ def run(res, tier):
     pred = predictions(res, tier)
     lap("generate")
     tally = Tally(res)
-    hdr, size, cfg_present, cfg_absent = scripted(res, tier, pred, tally)
+    tracer = Tracer()
+    hdr, size, cfg_present, cfg_absent = scripted(res, tier, pred, tally, tracer)
     lap("scripted")
-    writeout(res, hdr, size, tally)
+    writeout(res, hdr, size, tally, tracer)
     lap("writeout")
-    have_rustfmt = real_formatters(res, tier, hdr, size, cfg_present, cfg_absent, tally)
+    have_rustfmt = real_formatters(res, tier, hdr, size, cfg_present, cfg_absent, tally, tracer)
     lap("real")
     selftest(res, hdr, size, have_rustfmt)
     lap("selftest")
+    validated = validate_trace(res, tracer, tally)
+    lap("trace")
     res.add(stage_s=stage)
     tally.flush()
-    res.add(traces_validated_against_impl=tally.runs, distinct_behaviours_replayed=len(pred))
+    # every implementation run is replayed from the spec (R) and its hook log validated by TLC (T)
+    res.add(traces_validated_against_impl=validated, implementation_runs_replayed=tally.runs,
+            distinct_behaviours_replayed=len(pred))
     res.cov["exhaustive"] = False
 
 
